@@ -39,11 +39,10 @@ class Models:
         return deco
 
     def lookup(self, path, decl, callee):
-        for p in (path, decl):
+        for p in ((path, decl) if path != decl else (path,)):
             if p in self.exact:
                 self.used[p] = self.used.get(p, 0) + 1
                 return self.exact[p]
-        for p in (path, decl):
             for rx, fn in self.patterns:
                 if rx.search(p):
                     self.used[p] = self.used.get(p, 0) + 1
@@ -146,11 +145,48 @@ def as_region(I, st, v):
             return VRegion(("place", v.fid, v.local, v.projs), Lin.const(0), Lin.const(tgt.n), v.mut)
         if isinstance(tgt, VRegion):
             return tgt
-        if isinstance(tgt, VVec):
+        if isinstance(tgt, VVec) and tgt.elems == "u8":
             return VRegion(("vecbuf", tgt.key, fresh_id()), Lin.const(0), tgt.len, True)
-    if isinstance(v, VVec):
+    if isinstance(v, VVec) and v.elems == "u8":
         return VRegion(("vecbuf", v.key, fresh_id()), Lin.const(0), v.len, True)
     return None
+
+
+class VGSlice:
+    """&[T] for non-byte T: only the length is tracked"""
+    __slots__ = ("ety", "len", "mut")
+
+    def __init__(self, ety, len_, mut=False):
+        self.ety = ety
+        self.len = len_
+        self.mut = mut
+
+    def __repr__(self):
+        return "GSlice(%r,len=%s)" % (self.ety, show_lin(self.len))
+
+
+def as_gslice(I, st, v):
+    if isinstance(v, VGSlice):
+        return v
+    if isinstance(v, VRef):
+        tgt = I.load(st, ("place", v.fid, v.local, v.projs))
+        if isinstance(tgt, VVec) and tgt.elems is not None and tgt.elems != "u8":
+            return VGSlice(tgt.elems, tgt.len, v.mut)
+        if isinstance(tgt, VArray) and tgt.n is not None and tgt.ety is not None and tgt.ety != "u8":
+            return VGSlice(tgt.ety, Lin.const(tgt.n), v.mut)
+        if isinstance(tgt, VGSlice):
+            return tgt
+    if isinstance(v, VVec) and v.elems is not None and v.elems != "u8":
+        return VGSlice(v.elems, v.len, False)
+    return None
+
+
+def gelem_ref(c, st, g):
+    """a reference to an unknown element of generic slice g"""
+    ety = g.ety
+    oid = ("ge", fresh_id())
+    st.heap[oid] = c.I.materialize(st, ety, ("gev", fresh_id()))
+    return VRef(0, oid, (), g.mut)
 
 
 def range_bounds(I, st, rng, ln):
@@ -244,6 +280,9 @@ def m_len(c):
     r = as_region(c.I, c.st, c.args[0])
     if r is not None:
         return c.ret(VInt(r.len))
+    g = as_gslice(c.I, c.st, c.args[0])
+    if g is not None:
+        return c.ret(VInt(g.len))
     a = reg_atom(("len", ("unk", fresh_id())), 0, I64MAX)
     return c.ret(VInt(Lin.atom(a)))
 
@@ -253,6 +292,9 @@ def m_is_empty(c):
     r = as_region(c.I, c.st, c.args[0])
     if r is not None:
         return c.ret(VBool(f_simplify(("eq", r.len))))
+    g = as_gslice(c.I, c.st, c.args[0])
+    if g is not None:
+        return c.ret(VBool(f_simplify(("eq", g.len))))
     return c.ret(unknown_bool())
 
 
@@ -282,6 +324,24 @@ def m_get_unchecked(c):
        "<alloc::vec::Vec<T, A> as core::ops::IndexMut<I>>::index_mut")
 def m_index(c):
     r = as_region(c.I, c.st, c.args[0])
+    if r is None:
+        g = as_gslice(c.I, c.st, c.args[0])
+        if g is not None:
+            idx = c.args[1]
+            if isinstance(idx, VInt):
+                gl = g.len - idx.lin - 1
+                p = c.st.entails(gl) and c.st.entails(idx.lin)
+                c.oblige("panic", "slice index index < len", p, "" if p else "need %s>=0; facts: %s" % (show_lin(gl), c.I.show_facts(c.st, gl)))
+                c.st.add_ge0(gl)
+                return c.ret(gelem_ref(c, c.st, g))
+            rb = range_bounds(c.I, c.st, idx, g.len)
+            if rb is not None:
+                a, b = rb
+                p = c.st.entails(a) and c.st.entails(b - a) and c.st.entails(g.len - b)
+                c.oblige("panic", "slice index range inside slice", p, "" if p else "need %s>=0 and %s>=0" % (show_lin(b - a), show_lin(g.len - b)))
+                c.st.add_ge0(b - a)
+                c.st.add_ge0(g.len - b)
+                return c.ret(VGSlice(g.ety, b - a, g.mut))
     if r is None:
         # non-byte slices: bounds cannot be tracked -> report unless provably fine
         c.oblige("panic", "index on unmodelled slice", False, repr(c.args[0]))
@@ -373,6 +433,10 @@ def m_get(c):
     r = as_region(c.I, c.st, c.args[0])
     idx = c.args[1]
     if r is None:
+        g = as_gslice(c.I, c.st, c.args[0])
+        if g is not None and isinstance(idx, VInt):
+            return fork2(c, f_simplify(("ge", g.len - idx.lin - 1)), lambda s: some(c.I, gelem_ref(c, s, g), c.dty),
+                         lambda s: none(c.I, c.dty))
         return c.ret(c.fresh())
     if isinstance(idx, VInt):
         return fork2(c, f_simplify(("ge", r.len - idx.lin - 1)),
@@ -391,6 +455,10 @@ def m_get(c):
 def m_first(c):
     r = as_region(c.I, c.st, c.args[0])
     if r is None:
+        g = as_gslice(c.I, c.st, c.args[0])
+        if g is not None:
+            return fork2(c, f_simplify(("ge", g.len - 1)), lambda s: some(c.I, gelem_ref(c, s, g), c.dty),
+                         lambda s: none(c.I, c.dty))
         return c.ret(c.fresh())
     off = r.off if c.path.endswith("first") else r.off + r.len - 1
     return fork2(c, f_simplify(("ge", r.len - 1)),
@@ -430,6 +498,9 @@ def m_as_slice(c):
     r = as_region(c.I, c.st, c.args[0])
     if r is not None:
         return c.ret(r)
+    g = as_gslice(c.I, c.st, c.args[0])
+    if g is not None:
+        return c.ret(g)
     return c.ret(c.fresh())
 
 
@@ -740,7 +811,7 @@ def m_clone_struct(c):
         key = ("vclone", fresh_id())
         cp = reg_atom(("cap", key), 0, I64MAX)
         c.st.add_ge0(Lin.atom(cp) - v.len)
-        return c.ret(VVec("vec", v.len, Lin.atom(cp), key))
+        return c.ret(VVec("vec", v.len, Lin.atom(cp), key, v.elems))
     return c.ret(v)
 
 
@@ -1184,6 +1255,15 @@ def m_fn_call(c):
 
 # ------------------------------------------------------------------------------------------------- ArrayVec / Vec
 
+def dty_elem(c):
+    t = c.I.rt(c.dty)
+    if isinstance(t, dict) and t.get("args"):
+        for a in t["args"]:
+            if "t" in a:
+                return c.I.rt(a["t"])
+    return None
+
+
 def vec_ref(c, i=0):
     r = c.args[i]
     if isinstance(r, VRef):
@@ -1203,7 +1283,7 @@ def vec_store(c, r, v, st=None):
 def m_av_new(c):
     v = c.I.materialize(c.st, c.dty, ("avnew", fresh_id()))
     if isinstance(v, VVec):
-        return c.ret(VVec("arrayvec", Lin.const(0), v.cap, v.key))
+        return c.ret(VVec("arrayvec", Lin.const(0), v.cap, v.key, v.elems))
     return c.ret(v)
 
 
@@ -1211,7 +1291,7 @@ def m_av_new(c):
 def m_av_from(c):
     v = c.I.materialize(c.st, c.dty, ("avfrom", fresh_id()))
     if isinstance(v, VVec):
-        return c.ret(VVec("arrayvec", v.cap, v.cap, v.key))
+        return c.ret(VVec("arrayvec", v.cap, v.cap, v.key, v.elems))
     return c.ret(v)
 
 
@@ -1264,7 +1344,7 @@ def m_av_push_unchecked(c):
     g = v.cap - v.len - 1
     p = c.st.entails(g)
     c.oblige("push", "push_unchecked: len < CAP", p, "" if p else "need %s>=0; facts: %s" % (show_lin(g), c.I.show_facts(c.st, g)))
-    vec_store(c, r, VVec(v.kind, v.len + 1, v.cap, v.key))
+    vec_store(c, r, VVec(v.kind, v.len + 1, v.cap, v.key, v.elems))
     return c.ret(VTuple(()))
 
 
@@ -1278,7 +1358,7 @@ def m_av_push(c):
     p = c.st.entails(g)
     c.oblige("panic", "ArrayVec::push: len < CAP", p, "" if p else "need %s>=0" % show_lin(g))
     c.st.add_ge0(g)
-    vec_store(c, r, VVec(v.kind, v.len + 1, v.cap, v.key))
+    vec_store(c, r, VVec(v.kind, v.len + 1, v.cap, v.key, v.elems))
     return c.ret(VTuple(()))
 
 
@@ -1289,7 +1369,7 @@ def m_av_try_push(c):
         return c.ret(c.fresh())
 
     def okv(s):
-        vec_store(c, r, VVec(v.kind, v.len + 1, v.cap, v.key), s)
+        vec_store(c, r, VVec(v.kind, v.len + 1, v.cap, v.key, v.elems), s)
         return ok(c.I, VTuple(()), c.dty)
     return fork2(c, f_simplify(("ge", v.cap - v.len - 1)), okv,
                  lambda s: err(c.I, VOpaque(None, ("cap", fresh_id())), c.dty))
@@ -1306,7 +1386,7 @@ def m_set_len(c):
     p = c.st.entails(g)
     c.oblige("setlen", "set_len: new_len <= capacity", p,
              "" if p else "need %s>=0; facts: %s" % (show_lin(g), c.I.show_facts(c.st, g)), trivial=g.is_const())
-    vec_store(c, r, VVec(v.kind, n.lin, v.cap, v.key))
+    vec_store(c, r, VVec(v.kind, n.lin, v.cap, v.key, v.elems))
     return c.ret(VTuple(()))
 
 
@@ -1320,7 +1400,7 @@ def m_av_try_extend(c):
         return c.ret(c.fresh())
 
     def okv(st):
-        vec_store(c, r, VVec(v.kind, v.len + s.len, v.cap, v.key), st)
+        vec_store(c, r, VVec(v.kind, v.len + s.len, v.cap, v.key, v.elems), st)
         return ok(c.I, VTuple(()), c.dty)
     return fork2(c, f_simplify(("ge", v.cap - v.len - s.len)), okv,
                  lambda st: err(c.I, VOpaque(None, ("cap", fresh_id())), c.dty))
@@ -1348,7 +1428,7 @@ def m_av_extend(c):
     p = c.st.entails(g)
     c.oblige("panic", "ArrayVec::extend fits capacity", p, "" if p else "need %s>=0; facts: %s" % (show_lin(g), c.I.show_facts(c.st, g)))
     c.st.add_ge0(g)
-    vec_store(c, r, VVec(v.kind, v.len + n, v.cap, v.key))
+    vec_store(c, r, VVec(v.kind, v.len + n, v.cap, v.key, v.elems))
     return c.ret(VTuple(()))
 
 
@@ -1356,14 +1436,14 @@ def m_av_extend(c):
 def m_vec_clear(c):
     r, v = vec_ref(c)
     if v is not None and r is not None:
-        vec_store(c, r, VVec(v.kind, Lin.const(0), v.cap, v.key))
+        vec_store(c, r, VVec(v.kind, Lin.const(0), v.cap, v.key, v.elems))
     return c.ret(VTuple(()))
 
 
 @M.reg("alloc::vec::Vec::<T>::new")
 def m_vec_new(c):
     key = ("vnew", fresh_id())
-    return c.ret(VVec("vec", Lin.const(0), Lin.const(0), key))
+    return c.ret(VVec("vec", Lin.const(0), Lin.const(0), key, dty_elem(c)))
 
 
 @M.reg("alloc::vec::Vec::<T>::with_capacity")
@@ -1373,7 +1453,7 @@ def m_vec_with_capacity(c):
     cp = reg_atom(("cap", key), 0, I64MAX)
     if isinstance(n, VInt):
         c.st.add_ge0(Lin.atom(cp) - n.lin)
-    return c.ret(VVec("vec", Lin.const(0), Lin.atom(cp), key))
+    return c.ret(VVec("vec", Lin.const(0), Lin.atom(cp), key, dty_elem(c)))
 
 
 @M.reg("alloc::vec::Vec::<T, A>::push")
@@ -1383,7 +1463,7 @@ def m_vec_push(c):
         key = ("vpush", fresh_id())
         cp = reg_atom(("cap", key), 0, I64MAX)
         c.st.add_ge0(Lin.atom(cp) - v.len - 1)
-        vec_store(c, r, VVec("vec", v.len + 1, Lin.atom(cp), key))
+        vec_store(c, r, VVec("vec", v.len + 1, Lin.atom(cp), key, v.elems))
     return c.ret(VTuple(()))
 
 
@@ -1394,7 +1474,7 @@ def m_vec_pop(c):
         return c.ret(c.fresh())
 
     def somev(s):
-        vec_store(c, r, VVec("vec", v.len - 1, v.cap, v.key), s)
+        vec_store(c, r, VVec("vec", v.len - 1, v.cap, v.key, v.elems), s)
         t = c.I.rt(c.dty)
         inner = c.I.materialize(s, t["args"][0]["t"], ("pop", fresh_id())) if isinstance(t, dict) and t.get("args") else VOpaque(None, ("pop", fresh_id()))
         return some(c.I, inner, c.dty)
@@ -1413,7 +1493,7 @@ def m_vec_try_reserve(c):
         cp = reg_atom(("cap", key), 0, I64MAX)
         s.add_ge0(Lin.atom(cp) - v.len - n.lin)
         s.add_ge0(Lin.atom(cp) - v.cap)
-        vec_store(c, r, VVec("vec", v.len, Lin.atom(cp), v.key), s)
+        vec_store(c, r, VVec("vec", v.len, Lin.atom(cp), v.key, v.elems), s)
         return ok(c.I, VTuple(()), c.dty)
     return fork2(c, ("unk",), okv, lambda s: err(c.I, VOpaque(None, ("tre", fresh_id())), c.dty))
 
@@ -1427,7 +1507,7 @@ def m_vec_reserve(c):
         cp = reg_atom(("cap", key), 0, I64MAX)
         c.st.add_ge0(Lin.atom(cp) - v.len - n.lin)
         c.st.add_ge0(Lin.atom(cp) - v.cap)
-        vec_store(c, r, VVec("vec", v.len, Lin.atom(cp), v.key))
+        vec_store(c, r, VVec("vec", v.len, Lin.atom(cp), v.key, v.elems))
     return c.ret(VTuple(()))
 
 
@@ -1444,7 +1524,7 @@ def m_vec_extend_from_slice(c):
             nl = Lin.atom(reg_atom(("veclen", key), 0, I64MAX))
             c.st.add_ge0(nl - v.len)
         c.st.add_ge0(Lin.atom(cp) - nl)
-        vec_store(c, r, VVec("vec", nl, Lin.atom(cp), key))
+        vec_store(c, r, VVec("vec", nl, Lin.atom(cp), key, v.elems))
     return c.ret(VTuple(()))
 
 
@@ -1458,7 +1538,7 @@ def m_vec_retain(c):
         c.st.add_ge0(Lin.atom(cp) - Lin.atom(ln))
         if not c.path.endswith("resize"):
             c.st.add_ge0(v.len - Lin.atom(ln))
-        vec_store(c, r, VVec("vec", Lin.atom(ln), Lin.atom(cp), key))
+        vec_store(c, r, VVec("vec", Lin.atom(ln), Lin.atom(cp), key, v.elems))
     return c.ret(VTuple(()))
 
 
@@ -1514,6 +1594,9 @@ def m_slice_iter(c):
     r = as_region(c.I, c.st, c.args[0])
     if r is not None:
         return c.ret(VIter("slice", r=r))
+    g = as_gslice(c.I, c.st, c.args[0])
+    if g is not None:
+        return c.ret(VIter("count", n=g.len, ety=g.ety))
     src = c.args[0]
     if isinstance(src, VRef):
         tgt = c.I.load(c.st, ("place", src.fid, src.local, src.projs))
